@@ -9,6 +9,12 @@ def main():
         cs = spec.cfgs("quick", rng)
         for c in cs + [dict(c, tapi=1) for k, c in enumerate(cs) if c["n"] <= 5 and (k % 2 == 0 or (c["plans"] and c["payload"]))]:
             for v in spec.variants: jobs.append(("m", c, v, tuple(spec.extra_flags), spec.cxx, spec.opt))
+    import glob
+    from . import engine
+    for path in glob.glob(os.path.join(common.CORPUS, "*", "*.script")):
+        try: c = engine.cfg_from_line(open(path).readline())
+        except Exception: continue
+        for v in ("include", "development"): jobs.append(("m", c, v, (), "g++", "-O0"))
     for v in ("include", "development"): jobs.append(("u", None, v, (), "g++", "-O0"))
     src = os.path.join(common.HARNESS, "dispatch_harness.cpp")
     for n in props.DP_QUICK:
